@@ -15,4 +15,8 @@ def run(run):
                 'least one expected edge / every inventory; distinct by case')
     run.gen_replay('Eval_LangGraph', 'Eval_LangGraph.cfg', 'harness.replay_langgraph', {}, workers=1,
                    name='language-graph inventory, lookups, links and error variants of every library language')
+    n = 200 if quick else 6000
+    run.gen_replay('LangGen', 'LangGen.cfg', 'harness.replay_langgraph', {'view_key': 'lgexp'}, env={'VERIF_DEPTH': 30, 'VERIF_VIEWS': 1},
+                   simulate=10 ** 9, depth=30, max_cases=n, workers=12, timeout=300 if quick else 3000,
+                   name='language-graph inventory of %d random well-formed languages (LangGen)' % n)
     graphgen.run_plan(run, graphgen.is_c15, quick)
